@@ -21,6 +21,7 @@
 #include <thread>
 #include <vector>
 #include <unistd.h>
+#include <sched.h>
 #include "json.h"
 #include "rkcommon/tasking/parallel_for.h"
 #include "rkcommon/tasking/parallel_foreach.h"
@@ -341,6 +342,54 @@ int main(int argc, char **argv)
     }
 
     const std::string &t = sc.type;
+    long rounds = j.has("rounds") ? j["rounds"].num() : 0;
+    if (rounds > 0) {
+      // Stress mode: the same small loop many times, with the process confined to few CPUs so that the operating
+      // system preempts scheduler threads at arbitrary instructions (oversubscription).  Recording every round would
+      // swamp TLC, so a round is recorded in full only if it is one of the first three or if what the caller reads
+      // back right after the call is not "every cell written exactly once" - the recorded rounds are then validated
+      // by TLC like any other execution (the driver only selects what is recorded; it decides nothing).
+      if (j.has("cpus")) {
+        cpu_set_t set; CPU_ZERO(&set);
+        long ncpu = j["cpus"].num();
+        for (long c = 0; c < ncpu; ++c) CPU_SET((int)c, &set);
+        sched_setaffinity(0, sizeof(set), &set);
+      }
+      Json kept = Json::array();
+      long suspicious = 0, done = 0;
+      for (long r = 0; r < rounds && suspicious < 3; ++r, ++done) {
+        g_nextCall = 1;
+        std::vector<int> lf;
+        long written = runCall<int>(sc, sc.api, sc.n, sc.B, 0, 0, 0, false, lf);
+        bool susp = written != (sc.n > 0 ? sc.n : 0);
+        Json evs = collect(lf);
+        if (r < 3 || susp) {
+          if (kept.size()) { Json rs = Json::object(); rs.set("ev", "Reset"); kept.push(rs); }
+          for (size_t q = 0; q < evs.size(); ++q) kept.push(evs[q]);
+        }
+        if (susp) {
+          ++suspicious;
+          // write what we have right away: a late invocation working on a finished call may well crash the process
+          Json pr = Json::object();
+          pr.set("id", j["id"]);
+          pr.set("events", kept);
+          pr.set("rounds_run", (long long)done + 1);
+          pr.set("rounds_recorded_suspicious", (long long)suspicious);
+          g_out << pr.dump() << "\n";
+          g_out.flush();
+          // a late body invocation may still be running against the finished call: give it time before the next round
+          std::this_thread::sleep_for(std::chrono::milliseconds(5));
+        }
+      }
+      Json r = Json::object();
+      r.set("id", j["id"]);
+      r.set("events", kept);
+      r.set("rounds_run", (long long)done);
+      r.set("rounds_recorded_suspicious", (long long)suspicious);
+      g_out << r.dump() << "\n";
+      g_out.flush();
+      continue;
+    }
     if (t == "u8") runTypedNoBlocks<unsigned char>(sc, leaf);
     else if (t == "i16") runTypedNoBlocks<short>(sc, leaf);
     else if (t == "i32") runTyped<int>(sc, leaf);
